@@ -8,23 +8,46 @@ Require Import Pauli Collapse Sem Span Refine Run FrameRun FrameProg SpecSem Spe
 Require Stab Act Gen_GateTable Spec SpecProofs.
 
 (* which internal results are visible in Spec.recs (Some inversion) and which are hidden (None: the measurement inside a reset) *)
-Definition vis := list (option bool).
+(* which internal results are visible in Spec.recs - Some (inversion, fault variables XORed onto the recorded value: noisy measurements) -
+   and which are hidden (None: the measurement inside a reset) *)
+Definition ventry := (bool * list nat)%type.
+Definition vis := list (option ventry).
+Definition vform (e : ventry) (f : Stab.form) : Stab.form :=
+  fold_left (fun acc x => Stab.fxor acc (SpecSem.varf x)) (snd e) (Stab.fflip f (fst e)).
 Fixpoint proj (v : vis) (recs : list Stab.form) : list Stab.form :=
   match v, recs with
-  | Some inv :: v', f :: r' => Stab.fflip f inv :: proj v' r'
+  | Some e :: v', f :: r' => vform e f :: proj v' r'
   | None :: v', _ :: r' => proj v' r'
   | _, _ => []
   end.
-Fixpoint vfind (k : nat) (v : vis) : option (nat * bool) :=
+Fixpoint vfind (k : nat) (v : vis) : option (nat * ventry) :=
   match v with
   | [] => None
   | None :: v' => option_map (fun p => (S (fst p), snd p)) (vfind k v')
-  | Some inv :: v' => match k with 0 => Some (0, inv) | S k' => option_map (fun p => (S (fst p), snd p)) (vfind k' v') end
+  | Some e :: v' => match k with 0 => Some (0, e) | S k' => option_map (fun p => (S (fst p), snd p)) (vfind k' v') end
   end.
-Lemma vfind_proj : forall (v : vis) recs k idx inv, List.length v = List.length recs -> vfind k v = Some (idx, inv) ->
-  k < List.length (proj v recs) /\ nth k (proj v recs) Stab.fzero = Stab.fflip (nth idx recs Stab.fzero) inv.
+(* X_ERROR-like flip of the most recent visible record by variable x *)
+Fixpoint addv (x : nat) (v : vis) : vis :=
+  match v with
+  | [] => []
+  | None :: v' => None :: addv x v'
+  | Some (inv, vs) :: v' => Some (inv, vs ++ [x]) :: v'
+  end.
+Lemma addv_length x v : List.length (addv x v) = List.length v.
+Proof. induction v as [|[[inv vs]|] v IH]; cbn; congruence. Qed.
+Lemma vform_snoc inv vs x f : vform (inv, vs ++ [x]) f = Stab.fxor (vform (inv, vs) f) (SpecSem.varf x).
+Proof. unfold vform; cbn [fst snd]. now rewrite fold_left_app. Qed.
+Lemma proj_addv x : forall (v : vis) recs, List.length v = List.length recs ->
+  proj (addv x v) recs = match proj v recs with [] => [] | l :: b => Stab.fxor l (SpecSem.varf x) :: b end.
 Proof.
-  induction v as [|[i0|] v IH]; intros [|f recs] k idx inv HL Hf; cbn [vfind proj] in *; try discriminate; cbn [List.length] in HL; try lia.
+  induction v as [|[[inv vs]|] v IH]; intros [|f recs] HL; cbn [addv proj] in *; try reflexivity; cbn [List.length] in HL; try lia.
+  - now rewrite vform_snoc.
+  - apply IH. lia.
+Qed.
+Lemma vfind_proj : forall (v : vis) recs k idx e, List.length v = List.length recs -> vfind k v = Some (idx, e) ->
+  k < List.length (proj v recs) /\ nth k (proj v recs) Stab.fzero = vform e (nth idx recs Stab.fzero).
+Proof.
+  induction v as [|[i0|] v IH]; intros [|f recs] k idx e HL Hf; cbn [vfind proj] in *; try discriminate; cbn [List.length] in HL; try lia.
   - destruct k as [|k].
     + injection Hf as <- <-. cbn. split; [lia| reflexivity].
     + destruct (vfind k v) as [[i1 b1]|] eqn:E; [|discriminate]. cbn in Hf. injection Hf as <- <-.
@@ -33,23 +56,28 @@ Proof.
     destruct (IH recs k i1 b1 ltac:(lia) E) as [H1 H2]. cbn [nth]. split; [exact H1| exact H2].
 Qed.
 
+(* the primitives that apply "Pauli B controlled by the visible form of internal result idx" *)
+Definition ctrl_ops (B : Stab.bits) (idx : nat) (e : ventry) : list SpecSem.sop :=
+  [SpecSem.SPif B idx] ++ (if fst e then [SpecSem.SPauli B] else []) ++ map (SpecSem.SPifv B) (snd e).
+
 Definition compile1 (n : nat) (v : vis) (i : Spec.sinstr) : option (list SpecSem.sop * vis) :=
   match i with
   | Spec.SU1 g q => Some ([SpecSem.SG1 (Act.gate_id g) q], v)
   | Spec.SU2 g a b => Some ([SpecSem.SG2 (Act.gate_id g) a b], v)
   | Spec.SMeas P inv =>
       if Stab.is_identity (snd (Spec.herm_of n P)) then None
-      else Some ([SpecSem.SMs (fst (Spec.herm_of n P)) (snd (Spec.herm_of n P))], Some inv :: v)
+      else Some ([SpecSem.SMs (fst (Spec.herm_of n P)) (snd (Spec.herm_of n P))], Some (inv, []) :: v)
   | Spec.SMeasReset b q inv =>
-      Some ([SpecSem.SMs false (Stab.single n q (Stab.bpz b)); SpecSem.SPif (Stab.single n q (Stab.flip_of b)) 0], Some inv :: v)
+      Some ([SpecSem.SMs false (Stab.single n q (Stab.bpz b)); SpecSem.SPif (Stab.single n q (Stab.flip_of b)) 0], Some (inv, []) :: v)
   | Spec.SReset b q =>
       Some ([SpecSem.SMs false (Stab.single n q (Stab.bpz b)); SpecSem.SPif (Stab.single n q (Stab.flip_of b)) 0], None :: v)
   | Spec.SPauliIf P (Spec.CRec (S k)) =>
       match vfind k v with
-      | Some (idx, inv) => Some ((if inv then [SpecSem.SPauli (snd (Spec.herm_of n P))] else []) ++ [SpecSem.SPif (snd (Spec.herm_of n P)) idx], v)
+      | Some (idx, e) => Some (ctrl_ops (snd (Spec.herm_of n P)) idx e, v)
       | None => None
       end
   | Spec.SPauliIf P (Spec.CVar x) => Some ([SpecSem.SPifv (snd (Spec.herm_of n P)) (N.to_nat x)], v)
+  | Spec.SFlipLast x => Some ([], addv (N.to_nat x) v)
   | _ => None
   end.
 Fixpoint compile (n : nat) (v : vis) (c : list Spec.sinstr) : option (list SpecSem.sop * vis) :=
@@ -69,12 +97,31 @@ Proof.
   intros H. unfold Spec.rec_at. rewrite rev_length. rewrite rev_nth by lia. f_equal. lia.
 Qed.
 
-Lemma form_flip a f : Stab.fxor (Stab.fxor a (Stab.fconst true)) f = Stab.fxor a (Stab.fflip f true).
-Proof. destruct a as [a0 a1], f as [f0 f1]. unfold Stab.fxor, Stab.fconst, Stab.fflip; cbn [fst snd]. rewrite N.lxor_0_r. f_equal. destruct a0, f0; reflexivity. Qed.
-Lemma pauli_if_flip F f st : Stab.pauli_if F (Stab.fflip f true) st = Stab.pauli_if F f (Stab.pauli_if F (Stab.fconst true) st).
+Lemma fxor_assoc a f g : Stab.fxor (Stab.fxor a f) g = Stab.fxor a (Stab.fxor f g).
+Proof. destruct a as [a0 a1], f as [f0 f1], g as [g0 g1]. unfold Stab.fxor; cbn [fst snd]. rewrite N.lxor_assoc. f_equal. destruct a0, f0, g0; reflexivity. Qed.
+Lemma fflip_as_fxor f b : Stab.fflip f b = Stab.fxor f (Stab.fconst b).
+Proof. destruct f as [f0 f1]. unfold Stab.fflip, Stab.fxor, Stab.fconst; cbn [fst snd]. now rewrite N.lxor_0_r. Qed.
+Lemma pauli_if_fxor F f g st : Stab.pauli_if F (Stab.fxor f g) st = Stab.pauli_if F g (Stab.pauli_if F f st).
 Proof.
-  unfold Stab.pauli_if; cbn [Stab.gens Stab.ncoins]. f_equal. rewrite map_map. apply map_ext. intros g.
-  destruct (Stab.anti F (snd g)) eqn:E; cbn [snd fst]; rewrite E; [|reflexivity]. now rewrite form_flip.
+  unfold Stab.pauli_if; cbn [Stab.gens Stab.ncoins]. f_equal. rewrite map_map. apply map_ext. intros h.
+  destruct (Stab.anti F (snd h)) eqn:E; cbn [snd fst]; rewrite E; [|reflexivity]. now rewrite fxor_assoc.
+Qed.
+Lemma pauli_if_fzero_false F st : Stab.pauli_if F (Stab.fconst false) st = st.
+Proof.
+  unfold Stab.pauli_if. destruct st as [gs nc]. cbn [Stab.gens Stab.ncoins]. f_equal. rewrite <- (map_id gs) at 2. apply map_ext. intros h.
+  destruct (Stab.anti F (snd h)); [|reflexivity]. destruct h as [[c m] b]. unfold Stab.fxor, Stab.fconst; cbn [fst snd]. now rewrite xorb_false_r, N.lxor_0_r.
+Qed.
+
+Lemma ctrl_ops_exec B idx e st recs :
+  fold_left (fun s o => SpecSem.sexec o s) (ctrl_ops B idx e) (st, recs) = (Stab.pauli_if B (vform e (nth idx recs Stab.fzero)) st, recs).
+Proof.
+  destruct e as [inv vs]. unfold ctrl_ops, vform. cbn [fst snd]. rewrite !fold_left_app. cbn [fold_left SpecSem.sexec].
+  set (f := nth idx recs Stab.fzero).
+  assert (E1 : fold_left (fun s o => SpecSem.sexec o s) (if inv then [SpecSem.SPauli B] else []) (Stab.pauli_if B f st, recs)
+               = (Stab.pauli_if B (Stab.fflip f inv) st, recs)).
+  { rewrite fflip_as_fxor, pauli_if_fxor. destruct inv; cbn [fold_left SpecSem.sexec]; [reflexivity| now rewrite pauli_if_fzero_false]. }
+  rewrite E1. generalize (Stab.fflip f inv) as g. induction vs as [|x vs IH]; intros g; cbn [map fold_left SpecSem.sexec]; [reflexivity|].
+  rewrite <- pauli_if_fxor. apply IH.
 Qed.
 
 Lemma step_link n v i ops v' r s : compile1 n v i = Some (ops, v') -> srel r s v ->
@@ -98,19 +145,21 @@ Proof.
     destruct (Stab.measure false (Stab.single n q (Stab.bpz b)) st) as [f st1]. cbn [fst snd nth] in *.
     split; [exact E1|]. split; [cbn; lia|]. rewrite E2, Hrec. reflexivity.
   - destruct c as [[|k]|x]; try discriminate.
-    + destruct (vfind k v) as [[idx inv]|] eqn:Ef; [|discriminate]. injection Hc as <- <-.
-      destruct (vfind_proj v recs k idx inv Hlen Ef) as [Hk Hn].
-      assert (Ectl : Spec.ctrl_form (Spec.recs r) (Spec.CRec (S k)) = Stab.fflip (nth idx recs Stab.fzero) inv).
+    + destruct (vfind k v) as [[idx e]|] eqn:Ef; [|discriminate]. injection Hc as <- <-.
+      destruct (vfind_proj v recs k idx e Hlen Ef) as [Hk Hn].
+      assert (Ectl : Spec.ctrl_form (Spec.recs r) (Spec.CRec (S k)) = vform e (nth idx recs Stab.fzero)).
       { cbn [Spec.ctrl_form]. rewrite Hrec, rec_at_rev by exact Hk. exact Hn. }
-      split; [|split; [|cbn [Spec.sstep]; destruct (Spec.herm_of n P)]].
-      * rewrite SpecSem.sstep_SPauliIf, Hst, Ectl. destruct inv; cbn [app fold_left SpecSem.sexec fst].
-        -- apply pauli_if_flip.
-        -- now rewrite SpecSem.fflip_false.
-      * destruct inv; cbn [app fold_left SpecSem.sexec snd]; exact Hlen.
-      * destruct inv; cbn [app fold_left SpecSem.sexec snd]; exact Hrec.
+      rewrite ctrl_ops_exec. split; cbn [fst snd]; [|split; [exact Hlen| cbn [Spec.sstep]; destruct (Spec.herm_of n P); exact Hrec]].
+      now rewrite SpecSem.sstep_SPauliIf, Hst, Ectl.
     + injection Hc as <- <-. cbn [fold_left SpecSem.sexec].
       split; cbn [fst snd]; [|split; [exact Hlen| cbn [Spec.sstep]; destruct (Spec.herm_of n P); exact Hrec]].
       rewrite SpecSem.sstep_SPauliIf, Hst. cbn [Spec.ctrl_form]. unfold Spec.var_form, SpecSem.varf. now rewrite N2Nat.id.
+  - (* SFlipLast *)
+    injection Hc as <- <-. cbn [fold_left]. split; [cbn [Spec.sstep]; destruct (rev (Spec.recs r)); [exact Hst| exact Hst]|].
+    split; [cbn [snd]; now rewrite addv_length|]. cbn [snd Spec.sstep].
+    rewrite (proj_addv (N.to_nat v0) v recs Hlen). rewrite Hrec, rev_involutive.
+    destruct (proj v recs) as [|l b]; [cbn [Spec.recs]; now rewrite Hrec|].
+    cbn [Spec.recs rev]. unfold Spec.var_form, SpecSem.varf. now rewrite N2Nat.id.
 Qed.
 
 Lemma run_link n c : forall v ops v' r s, compile n v c = Some (ops, v') -> srel r s v ->
@@ -126,18 +175,30 @@ Lemma sinit_rel n base : srel (Spec.sinit n base) (SpecSem.st0 n base, []) [].
 Proof. split; [reflexivity|]. split; reflexivity. Qed.
 
 (* Spec.recs is the visible, possibly inverted, part of the internal record *)
-Fixpoint projb (v : vis) (bs : list bool) : list bool :=
+Definition vbit (ext : nat -> bool) (e : ventry) (b : bool) : bool :=
+  fold_left (fun acc x => xorb acc (ext x)) (snd e) (xorb b (fst e)).
+Fixpoint projb (ext : nat -> bool) (v : vis) (bs : list bool) : list bool :=
   match v, bs with
-  | Some inv :: v', b :: r' => xorb b inv :: projb v' r'
-  | None :: v', _ :: r' => projb v' r'
+  | Some e :: v', b :: r' => vbit ext e b :: projb ext v' r'
+  | None :: v', _ :: r' => projb ext v' r'
   | _, _ => []
   end.
-Lemma map_proj (ev : Stab.form -> bool) : (forall f b, ev (Stab.fflip f b) = xorb (ev f) b) ->
-  forall (v : vis) recs, map ev (proj v recs) = projb v (map ev recs).
+Lemma map_proj (ev : Stab.form -> bool) : (forall a b, ev (Stab.fxor a b) = xorb (ev a) (ev b)) -> (forall f b, ev (Stab.fflip f b) = xorb (ev f) b) ->
+  forall (v : vis) recs, map ev (proj v recs) = projb (fun x => ev (SpecSem.varf x)) v (map ev recs).
 Proof.
-  intros Hfl. induction v as [|[i0|] v IH]; intros [|f recs]; cbn [proj projb map]; try reflexivity.
-  - now rewrite Hfl, IH.
+  intros Hx Hfl. induction v as [|[[inv vs]|] v IH]; intros [|f recs]; cbn [proj projb map]; try reflexivity.
+  - f_equal; [|apply IH]. unfold vform, vbit; cbn [fst snd]. rewrite <- Hfl. generalize (Stab.fflip f inv) as g.
+    induction vs as [|x vs IHv]; intros g; cbn [fold_left]; [reflexivity|]. rewrite IHv, Hx. reflexivity.
   - apply IH.
+Qed.
+
+Fixpoint novars (v : vis) : Prop :=
+  match v with [] => True | Some (_, vs) :: v' => vs = [] /\ novars v' | None :: v' => novars v' end.
+Lemma projb_novars ext1 ext2 : forall (v : vis), novars v -> forall bs, projb ext1 v bs = projb ext2 v bs.
+Proof.
+  induction v as [|[[inv vs]|] v IH]; intros Hn [|b bs]; cbn [projb novars] in *; try reflexivity.
+  - destruct Hn as [-> Hn]. f_equal. now apply IH.
+  - now apply IH.
 Qed.
 
 (* Spec.srun: its recorded forms, evaluated under ANY assignment (coins from `base` upwards, sweep / fault variables below), are the
@@ -146,24 +207,24 @@ Qed.
 Theorem srun_sound n base c ops v' m k : compile n [] c = Some (ops, v') -> Forall (SpecSem.sop_ok n) ops ->
   exists l S', FrameProg.realize (fun x => SpecProofs.eval_form m k (SpecSem.varf x)) [] (map SpecSem.tr ops) l /\
                Run.sem_run (fun P => Zplus P) l S' /\
-               rev (projb v' (fold_left SpecSem.push l [])) = map (SpecProofs.eval_form m k) (Spec.recs (Spec.srun n base c)).
+               rev (projb (fun x => SpecProofs.eval_form m k (SpecSem.varf x)) v' (fold_left SpecSem.push l [])) = map (SpecProofs.eval_form m k) (Spec.recs (Spec.srun n base c)).
 Proof.
   intros Hc Hok. destruct (spec_circuits_sound_unconditional n base m k ops Hok) as (l & S' & Hre & Hrun & _ & Hrec).
   exists l, S'. split; [exact Hre|]. split; [exact Hrun|].
   destruct (run_link n c [] ops v' (Spec.sinit n base) (SpecSem.st0 n base, []) Hc (sinit_rel n base)) as (_ & _ & E).
-  unfold Spec.srun. rewrite E, Hrec, map_rev. f_equal. symmetry. apply map_proj. apply SpecSem.eval_form_fflip.
+  unfold Spec.srun. rewrite E, Hrec, map_rev. f_equal. symmetry. apply map_proj; [apply SpecProofs.eval_form_fxor| apply SpecSem.eval_form_fflip].
 Qed.
 (* ... and every run the semantics allows under external bits ext0 has such an evaluation as its visible record, with the variables
    below `base` pinned to ext0 *)
 Theorem srun_complete n base ext0 c ops v' la S' : compile n [] c = Some (ops, v') -> Forall (SpecSem.sop_ok n) ops -> vars_below base ops ->
   FrameProg.realize ext0 [] (map SpecSem.tr ops) la -> Run.sem_run (fun P => Zplus P) la S' ->
   exists m k, List.length k = m /\ (forall x, x < base -> x < m /\ nth x k false = ext0 x) /\
-    rev (projb v' (fold_left SpecSem.push la [])) = map (SpecProofs.eval_form m k) (Spec.recs (Spec.srun n base c)).
+    rev (projb (fun x => SpecProofs.eval_form m k (SpecSem.varf x)) v' (fold_left SpecSem.push la [])) = map (SpecProofs.eval_form m k) (Spec.recs (Spec.srun n base c)).
 Proof.
   intros Hc Hok Hv Hre Hrun. destruct (spec_complete_oracle n base ext0 ops la S' Hok Hv Hre Hrun) as (m & k & Hm & Hpin & Hrec).
   exists m, k. split; [exact Hm|]. split; [exact Hpin|].
   destruct (run_link n c [] ops v' (Spec.sinit n base) (SpecSem.st0 n base, []) Hc (sinit_rel n base)) as (_ & _ & E).
-  unfold Spec.srun. rewrite E, Hrec, map_rev. f_equal. symmetry. apply map_proj. apply SpecSem.eval_form_fflip.
+  unfold Spec.srun. rewrite E, Hrec, map_rev. f_equal. symmetry. apply map_proj; [apply SpecProofs.eval_form_fxor| apply SpecSem.eval_form_fflip].
 Qed.
 Print Assumptions srun_sound. Print Assumptions srun_complete.
 
@@ -171,6 +232,7 @@ Print Assumptions srun_sound. Print Assumptions srun_complete.
 Example srun_link_example :
   let c := [Spec.SU1 (Act.e_id (Act.gate_named "H"%string)) 0; Spec.SU2 (Act.e_id (Act.gate_named "CX"%string)) 0 1;
             Spec.SReset Stab.BZ 1; Spec.SMeas [(0, (false, true))] true; Spec.SPauliIf [(1, (true, false))] (Spec.CRec 1);
-            Spec.SPauliIf [(0, (false, true))] (Spec.CVar 0); Spec.SMeasReset Stab.BZ 0 false; Spec.SMeas [(1, (false, true))] false] in
-  exists ops v', compile 2 [] c = Some (ops, v') /\ List.length ops = 11 /\ v' = [Some false; Some false; Some true; None].
+            Spec.SPauliIf [(0, (false, true))] (Spec.CVar 0); Spec.SMeasReset Stab.BZ 0 false; Spec.SMeas [(1, (false, true))] false;
+            Spec.SFlipLast 1%N; Spec.SPauliIf [(0, (true, false))] (Spec.CRec 1)] in
+  exists ops v', compile 2 [] c = Some (ops, v') /\ List.length ops = 13 /\ v' = [Some (false, [1]); Some (false, []); Some (true, []); None].
 Proof. vm_compute. eexists; eexists. split; [reflexivity|]. split; reflexivity. Qed.
